@@ -107,7 +107,6 @@ def isVarE : DE → Bool
   | .var _ _ => true
   | _ => false
 
-mutual
 /-- `hasSideEffects` -/
 def hasSideEffects : DE → Bool
   | .num _ => false
@@ -120,13 +119,9 @@ def hasSideEffects : DE → Bool
   | .not e => hasSideEffects e
   | .typeof e => hasSideEffects e
   | .cond c a b => hasSideEffects c || hasSideEffects a || hasSideEffects b
-  | .comma l => hasSideEffectsL l
+  | .comma _ => true        -- the Go case has no `return false` after its loop
   | .group e => hasSideEffects e
   | .hdecl _ => true
-def hasSideEffectsL : List DE → Bool
-  | [] => false
-  | a :: t => hasSideEffects a || hasSideEffectsL t
-end
 
 def inner : DE → DE
   | .group e => inner e
@@ -147,22 +142,26 @@ structure DeclInfo where
   /-- names declared by let / const / catch in the scopes from `decl.Scope` up to the function scope (after the
       `InFor` adjustment of `isShadowed`), one list per scope -/
   lexPath : List (List String)
+  /-- the names of the scope that `isShadowed` skips although the declaration is not in the head of a loop of that
+      scope: the empty declaration that the parser makes for a `while` loop belongs to the enclosing scope (K-C01D-1) -/
+  skipped : List String := []
 deriving Repr, Inhabited
 
 mutual
 /-- the `var` declarations in the order of `Scope.Func.VarDecls`; `path` = names declared by the enclosing block
     scopes below the function scope (`Scope.Declared`), innermost first -/
 def collectS (path : List (List String)) : DS → List DeclInfo
-  | .decl .var items => [⟨items, false, path⟩]
+  | .decl .var items => [⟨items, false, path, []⟩]
   | .ifS _ t e => collectS path t ++ collectS path e
   | .block l => collectL (lexNamesL l :: path) l
   | .forS w i _ _ b =>
     match i with
-    | .decl .var items => ⟨items, true, path⟩ :: collectL ((lexNamesL b) :: path) b
+    | .decl .var items => ⟨items, true, path, []⟩ :: collectL ((lexNamesL b) :: path) b
     | .empty =>
       -- the parser adds an empty `var` declaration after the body; for `while` its scope is the enclosing one,
       -- of which `isShadowed` skips the innermost block
-      collectL (lexNamesL b :: path) b ++ [⟨[], true, if w then path.drop 1 else path⟩]
+      collectL (lexNamesL b :: path) b ++
+        [⟨[], true, if w then path.drop 1 else path, if w then path.headD [] else []⟩]
     | _ => collectL (((lexDeclsS i).map (·.1) ++ lexNamesL b) :: path) b
   | .tryS b x _ cb => collectL (lexNamesL b :: path) b ++ collectL ((x :: lexNamesL cb) :: path) cb
   | _ => []
@@ -276,6 +275,214 @@ def hoistBody (body : List DS) : List DS :=
   | none => body
   | some p => (applyL p body 0).1
 
+/-- trigger of the open known finding K-C01D-1 on one function body: the declaration that receives the hoisted names is
+    the empty head of a `while` loop standing in a block, and one of the hoisted names is declared with let / const in
+    that block -/
+def d1Body (body : List DS) : Bool :=
+  let ds := collectL [] body
+  match plan ds with
+  | none => false
+  | some p =>
+    let target := ds.getD p.best default
+    (ds.zip p.hoist).any (fun dh => dh.2 && (itemNames dh.1.items).any (fun x => target.skipped.contains x))
+
+mutual
+def d1S : DS → Bool
+  | .ifS _ t e => d1S t || d1S e
+  | .block l => d1L l
+  | .forS _ _ _ _ b => d1L b
+  | .tryS b _ _ cb => d1L b || d1L cb
+  | .fn _ _ _ body => d1Body body || d1L body
+  | _ => false
+def d1L : List DS → Bool
+  | [] => false
+  | s :: t => d1S s || d1L t
+end
+
+/-- guard of K-C01D-1 on a whole program -/
+def d1Trigger (prog : List DS) : Bool := d1Body prog || d1L prog
+
+mutual
+/-- assignments (anywhere in an expression) whose target is annotated `VariableDecl` but is not in `own` -/
+def foreignE (own : List String) : DE → Bool
+  | .assign x a e => (a.decl == 1 && !own.contains x) || foreignE own e
+  | .call f a => foreignE own f || foreignEL own a
+  | .bin _ a b => foreignE own a || foreignE own b
+  | .not e => foreignE own e
+  | .typeof e => foreignE own e
+  | .cond c a b => foreignE own c || foreignE own a || foreignE own b
+  | .comma l => foreignEL own l
+  | .group e => foreignE own e
+  | .hdecl l => foreignEL own l
+  | _ => false
+def foreignEL (own : List String) : List DE → Bool
+  | [] => false
+  | a :: t => foreignE own a || foreignEL own t
+end
+
+def foreignOE (own : List String) : Option DE → Bool
+  | none => false
+  | some e => foreignE own e
+
+mutual
+/-- the scope-analysis annotations break their contract: inside some function an assignment target is marked as a
+    `var` variable (`Decl == VariableDecl`) although the function does not declare that name with `var` — the `Var`
+    object is the one of an enclosing function whose `var` comes later in the source (guard of K-C01D-4) -/
+def foreignS (own : List String) : DS → Bool
+  | .expr e => foreignE own e
+  | .decl _ items => foreignEL own items
+  | .ifS c t e => foreignE own c || foreignS own t || foreignS own e
+  | .block l => foreignL own l
+  | .forS _ i c p b => foreignS own i || foreignOE own c || foreignOE own p || foreignL own b
+  | .ret e => foreignOE own e
+  | .throw e => foreignE own e
+  | .tryS b _ _ cb => foreignL own b || foreignL own cb
+  | .fn _ _ _ body => foreignL (varNamesL body) body
+  | _ => false
+def foreignL (own : List String) : List DS → Bool
+  | [] => false
+  | s :: t => foreignS own s || foreignL own t
+end
+
+def d4Trigger (prog : List DS) : Bool := foreignL (varNamesL prog) prog
+
+mutual
+def mentionsVar : DE → Bool
+  | .var _ _ => true
+  | .assign _ _ _ => true
+  | .postinc _ _ => true
+  | .call f a => mentionsVar f || mentionsVarL a
+  | .bin _ a b => mentionsVar a || mentionsVar b
+  | .not e => mentionsVar e
+  | .typeof e => mentionsVar e
+  | .cond c a b => mentionsVar c || mentionsVar a || mentionsVar b
+  | .comma l => mentionsVarL l
+  | .group e => mentionsVar e
+  | .hdecl l => mentionsVarL l
+  | _ => false
+def mentionsVarL : List DE → Bool
+  | [] => false
+  | a :: t => mentionsVar a || mentionsVarL t
+end
+
+mutual
+/-- a statement that can disappear entirely -/
+def vanishes : DS → Bool
+  | .empty => true
+  | .absent => true
+  | .block l => vanishesL l
+  | .decl _ items => items.all (fun i => match i with
+      | .var _ _ => true
+      | .assign _ _ e => !hasSideEffects e
+      | _ => false)
+  | _ => false
+def vanishesL : List DS → Bool
+  | [] => true
+  | s :: t => vanishes s && vanishesL t
+end
+
+mutual
+/-- guard of the open finding K-C01-3 of C01 (`hasSideEffects` treats a binary operator over plain variables as pure):
+    an `if` whose branches can disappear and whose condition reads variables but counts as free of side effects -/
+def k3S : DS → Bool
+  | .ifS c t e => (!hasSideEffects c && mentionsVar c && vanishes t && vanishes e) || k3S t || k3S e
+  | .block l => k3L l
+  | .forS _ _ _ _ b => k3L b
+  | .tryS b _ _ cb => k3L b || k3L cb
+  | .fn _ _ _ body => k3L body
+  | _ => false
+def k3L : List DS → Bool
+  | [] => false
+  | s :: t => k3S s || k3L t
+end
+
+/-- the open known finding whose guard a program satisfies -/
+def knownTrigger (prog : List DS) : String :=
+  if d1Trigger prog then "K-C01D-1" else if d4Trigger prog then "K-C01D-4" else if k3L prog then "K-C01-3" else "-"
+
+/-! ## the declarations of one function as a store
+
+`addDefinition` searches *all* declarations of `Scope.Func.VarDecls` for the item it replaces, so the statement phase
+works on references: a `var` declaration node of the function under work is `.decl .var [.num did]` (`declRef`), a
+hoisted declaration in expression position `.hdecl [.num did]`, and the item lists live in the store. -/
+
+structure VD where
+  kind : DeclKind
+  items : List DE
+  live : Bool := true     -- still in `Scope.VarDecls`
+deriving Repr, Inhabited
+
+abbrev Store := List VD
+abbrev SM := StateT Store Option
+
+def declRef (did : Nat) : DS := .decl .var [.num did]
+def hdeclRef (did : Nat) : DE := .hdecl [.num did]
+
+def refOf : List DE → Option Nat
+  | [.num n] => some n
+  | _ => none
+
+mutual
+/-- replace the `var` declarations of a function body by references, numbered like `collectS` -/
+def refS : DS → Nat → DS × Nat
+  | .decl .var _, n => (declRef n, n + 1)
+  | .ifS c t e, n =>
+    let r1 := refS t n
+    let r2 := refS e r1.2
+    (.ifS c r1.1 r2.1, r2.2)
+  | .block l, n => let r := refL l n; (.block r.1, r.2)
+  | .forS w i c po b, n =>
+    match i with
+    | .decl .var _ => let r := refL b (n + 1); (.forS w (declRef n) c po r.1, r.2)
+    | .empty => let r := refL b n; (.forS w (declRef r.2) c po r.1, r.2 + 1)
+    | _ => let r := refL b n; (.forS w i c po r.1, r.2)
+  | .tryS b x a cb, n =>
+    let r1 := refL b n
+    let r2 := refL cb r1.2
+    (.tryS r1.1 x a r2.1, r2.2)
+  | s, n => (s, n)
+def refL : List DS → Nat → List DS × Nat
+  | [], n => ([], n)
+  | s :: t, n =>
+    let r1 := refS s n
+    let r2 := refL t r1.2
+    (r1.1 :: r2.1, r2.2)
+end
+
+/-- the store after `hoistVars` -/
+def hoistStore (ds : List DeclInfo) : Store :=
+  match plan ds with
+  | none => ds.map (fun d => ⟨.var, d.items, true⟩)
+  | some p => ds.zipIdx.map (fun di =>
+      if di.2 == p.best then ⟨.var, p.bestItems, true⟩
+      else if p.hoist.getD di.2 false then ⟨.hoisted, di.1.items, true⟩ else ⟨.var, di.1.items, true⟩)
+
+mutual
+/-- the tree that a store and a tree of references stand for -/
+def readS (st : Store) : DS → DS
+  | .decl k items =>
+    (match refOf items with
+     | some d => (match st[d]? with | some v => .decl v.kind v.items | none => .decl k items)
+     | none => .decl k items)
+  | .ifS c t e => .ifS c (readS st t) (readS st e)
+  | .block l => .block (readL st l)
+  | .forS w i c p b =>
+    let i' : DS := match i with
+      | .decl k items =>
+        (match refOf items with
+         | some d => (match st[d]? with
+           | some v => if v.items.isEmpty then .empty else .decl v.kind v.items
+           | none => i)
+         | none => .decl k items)
+      | _ => i
+    .forS w i' c p (readL st b)
+  | .tryS b x a cb => .tryS (readL st b) x a (readL st cb)
+  | s => s
+def readL (st : Store) : List DS → List DS
+  | [] => []
+  | s :: t => readS st s :: readL st t
+end
+
 /-! ## phase 2: `optimizeStmt` / `optimizeStmtList` -/
 
 inductive BlockType where
@@ -319,114 +526,185 @@ def splitLast {α : Type} : List α → Option (List α × α)
     | some (i, l) => some (a :: i, l)
     | none => none
 
-/-- remove the first item without initialiser named `x` (`addDefinition`, first loop) -/
+def isDefine : DE → Bool
+  | .assign _ _ _ => true
+  | _ => false
+
+/-- remove the first item without initialiser named `x` -/
 def removeBare (x : String) : List DE → Option (List DE)
   | [] => none
   | .var y a :: t => if y == x then some t else (removeBare x t).map (fun r => .var y a :: r)
   | i :: t => (removeBare x t).map (fun r => i :: r)
 
-/-- `addDefinition(decl, binding, value, forward)`; `risk` = names that have an item without initialiser in another
-    declaration of the function where the second loop of `addDefinition` could find them (outside the model) -/
-def addDefinition (risk : List String) (k : DeclKind) (items : List DE) (it : DE) (forward : Bool) : Option (List DE) :=
+/-- `addDefinition(decl, binding, value, forward)` on the item list of the destination alone (the search through
+    the other declarations is `crossRemove`) -/
+def addDefinition (k : DeclKind) (items : List DE) (it : DE) (forward : Bool) : List DE :=
+  let base : List DE :=
+    if k == .hoisted then items else
+    match itemName it with
+    | some x => (removeBare x items).getD items
+    | none => items
+  if forward then it :: base else base ++ [it]
+
+/-- `mergeVarDecls(dst, src, forward)` without the search through other declarations -/
+def mergeVarDecls (k : DeclKind) (dst src : List DE) (forward : Bool) : List DE :=
+  (if forward then src.reverse else src).foldl (fun d it => addDefinition k d it forward) dst
+
+def getVD (d : Nat) : SM VD := do
+  let st ← get
+  match st[d]? with
+  | some v => pure v
+  | none => failure
+
+def setItems (d : Nat) (items : List DE) : SM Unit :=
+  modify (fun st => st.modify d (fun v => { v with items := items }))
+
+def findBareIdx (x : String) : Store → Nat → Option Nat
+  | [], _ => none
+  | v :: t, i => if v.live && (removeBare x v.items).isSome then some i else findBareIdx x t (i + 1)
+
+/-- the second loop of `addDefinition`: the item without initialiser is in another declaration of the function -/
+def crossRemove (x : String) : SM Unit := do
+  let st ← get
+  match findBareIdx x st 0 with
+  | some i =>
+    match st[i]? with
+    | some v => setItems i ((removeBare x v.items).getD v.items)
+    | none => pure ()
+  | none => pure ()
+
+def addDefS (dst : Nat) (it : DE) (forward : Bool) : SM Unit := do
   match itemName it with
-  | none => none
+  | none => failure
   | some x =>
-    let isDef := match it with | .assign _ _ _ => true | _ => false
-    let base : Option (List DE) :=
-      if k == .hoisted then some items else
-      match removeBare x items with
-      | some r => some r
-      | none => if isDef && risk.contains x then none else some items
-    base.map (fun b => if forward then it :: b else b ++ [it])
+    let v ← getVD dst
+    if v.kind != .hoisted then
+      match removeBare x v.items with
+      | some r => setItems dst r
+      | none => if isDefine it then crossRemove x else pure ()
+    let v ← getVD dst
+    setItems dst (if forward then it :: v.items else v.items ++ [it])
+
+def mergeLoop (dst src : Nat) (forward : Bool) : Nat → Nat → SM Unit
+  | 0, _ => failure
+  | fuel + 1, j => do
+    let v ← getVD src
+    match v.items[j]? with
+    | none => pure ()
+    | some it =>
+      addDefS dst it forward
+      mergeLoop dst src forward fuel (j + 1)
 
 /-- `mergeVarDecls(dst, src, forward)` -/
-def mergeVarDecls (risk : List String) (k : DeclKind) (dst src : List DE) (forward : Bool) : Option (List DE) :=
-  (if forward then src.reverse else src).foldl
-    (fun acc it => acc.bind (fun d => addDefinition risk k d it forward)) (some dst)
+def mergeDeclsS (dst src : Nat) (forward : Bool) : SM Unit := do
+  let v ← getVD src
+  if forward then setItems src v.items.reverse
+  mergeLoop dst src forward (v.items.length + 1) 0
+  setItems src []
 
-/-- an item of a comma list that `mergeVarDeclExprStmt` takes: a hoisted declaration, or an assignment to a variable
-    whose `Var` object has `Decl == VariableDecl` -/
-def mergeItem (risk : List String) (k : DeclKind) (dst : List DE) (it : DE) (forward : Bool) : Option (Option (List DE)) :=
-  match it with
-  | .hdecl src => some (mergeVarDecls risk k dst src forward)
-  | .assign x a e => if a.decl == 1 then some (addDefinition risk k dst (.assign x a e) forward) else none
-  | _ => none
+/-- the loop of `mergeVarDeclExprStmt` over a comma list (in the order of iteration); returns the items not merged -/
+def mergeCommaS (dst : Nat) (forward : Bool) : List DE → SM (List DE)
+  | [] => pure []
+  | it :: t =>
+    match it with
+    | .hdecl items =>
+      (match refOf items with
+       | some src => do mergeDeclsS dst src forward; mergeCommaS dst forward t
+       | none => failure)
+    | .assign x a e =>
+      if a.decl == 1 then do addDefS dst (.assign x a e) forward; mergeCommaS dst forward t
+      else pure (it :: t)
+    | _ => pure (it :: t)
 
-/-- the loop of `mergeVarDeclExprStmt` over a comma list (already in the order of iteration); result: new
-    destination and the items not merged (in the order of iteration) -/
-def mergeCommaLoop (risk : List String) (k : DeclKind) (forward : Bool) : List DE → List DE → Option (List DE × List DE)
-  | dst, [] => some (dst, [])
-  | dst, it :: t =>
-    match mergeItem risk k dst it forward with
-    | none => some (dst, it :: t)
-    | some none => none
-    | some (some d) => mergeCommaLoop risk k forward d t
-
-/-- `mergeVarDeclExprStmt(decl, exprStmt, forward)`: `none` = outside the model; otherwise the new item list of the
-    declaration and what is left of the expression statement (`none` = it was merged completely) -/
-def mergeVarDeclExpr (risk : List String) (k : DeclKind) (dst : List DE) (v : DE) (forward : Bool) :
-    Option (List DE × Option DE) :=
+/-- `mergeVarDeclExprStmt(decl, exprStmt, forward)`: what is left of the expression (`none` = merged completely) -/
+def mergeDeclExprS (dst : Nat) (v : DE) (forward : Bool) : SM (Option DE) :=
   match v with
-  | .hdecl src => (mergeVarDecls risk k dst src forward).map (fun d => (d, none))
-  | .comma l =>
-    (mergeCommaLoop risk k forward dst (if forward then l.reverse else l)).map (fun r =>
-      if r.2.isEmpty then (r.1, none) else (r.1, some (.comma (if forward then r.2.reverse else r.2))))
+  | .hdecl items =>
+    (match refOf items with
+     | some src => do mergeDeclsS dst src forward; pure none
+     | none => failure)
+  | .comma l => do
+    let rest ← mergeCommaS dst forward (if forward then l.reverse else l)
+    pure (if rest.isEmpty then none else some (.comma (if forward then rest.reverse else rest)))
   | .assign x a e =>
-    if a.decl == 1 then (addDefinition risk k dst (.assign x a e) forward).map (fun d => (d, none))
-    else some (dst, some v)
-  | _ => some (dst, some v)
+    if a.decl == 1 then do addDefS dst (.assign x a e) forward; pure none
+    else pure (some v)
+  | _ => pure (some v)
 
-/-- merging into the statement `s2` of the expression statement `left` that precedes it; `none` = no merge,
-    `some none` = outside the model, `some (some l)` = the statements that replace both -/
-def mergeExprLeft (risk : List String) (left : DE) (s2 : DS) : Option (Option (List DS)) :=
+/-- merging into `s2` of the expression statement `left` that precedes it: `none` = nothing merged -/
+def mergeExprLeftS (left : DE) (s2 : DS) : SM (Option (List DS)) :=
   match s2 with
-  | .expr r => some (some [.expr (commaExpr left r)])
-  | .ret (some v) => some (some [.ret (some (commaExpr left v))])
-  | .throw v => some (some [.throw (commaExpr left v)])
-  | .ifS c t e => some (some [.ifS (commaExpr left c) t e])
+  | .expr r => pure (some [.expr (commaExpr left r)])
+  | .ret (some v) => pure (some [.ret (some (commaExpr left v))])
+  | .throw v => pure (some [.throw (commaExpr left v)])
+  | .ifS c t e => pure (some [.ifS (commaExpr left c) t e])
   | .forS w i c p b =>
     (match i with
-     | .empty => some (some [.forS w (.expr left) c p b])
-     | .decl k [] => if k == .var || k == .hoisted then some (some [.forS w (.expr left) c p b]) else none
-     | .decl k items =>
-       if k == .var || k == .hoisted then
-         some ((mergeVarDeclExpr risk k items left true).map (fun r =>
-           match r.2 with
-           | none => [.forS w (.decl k r.1) c p b]
-           | some rest => [.expr rest, .forS w (.decl k r.1) c p b]))
-       else none
-     | _ => none)
-  | .decl .var items =>
-    some ((mergeVarDeclExpr risk .var items left true).map (fun r =>
-      match r.2 with
-      | none => [.decl .var r.1]
-      | some rest => [.expr rest, .decl .var r.1]))
-  | _ => none
+     | .decl _ items =>
+       (match refOf items with
+        | some d => do
+          let v ← getVD d
+          if v.items.isEmpty then
+            -- `forStmt.Init = left.Value`: a hoisted declaration stays a declaration node
+            (match left with
+             | .hdecl litems => if (refOf litems).isSome then pure (some [.forS w (.decl .var litems) c p b])
+                                else pure (some [.forS w (.expr left) c p b])
+             | _ => pure (some [.forS w (.expr left) c p b]))
+          else do
+            let rest ← mergeDeclExprS d left true
+            match rest with
+            | none => pure (some [s2])
+            | some r => pure (some [.expr r, s2])
+        | none => pure none)
+     | _ => pure none)
+  | .decl _ items =>
+    (match refOf items with
+     | some d => do
+       let rest ← mergeDeclExprS d left true
+       match rest with
+       | none => pure (some [s2])
+       | some r => pure (some [.expr r, s2])
+     | none => pure none)
+  | _ => pure none
 
-/-- merging into `s2` of the declaration `left` that precedes it -/
-def mergeDeclLeft (risk : List String) (k : DeclKind) (items : List DE) (s2 : DS) : Option (Option (List DS)) :=
-  match s2 with
-  | .decl k2 items2 => if k == k2 then some (some [.decl k (items ++ items2)]) else
-      none
-  | .expr v =>
-    if k == .var then
-      some ((mergeVarDeclExpr risk .var items v false).map (fun r =>
-        match r.2 with
-        | none => [.decl .var r.1]
-        | some rest => [.decl .var r.1, .expr rest]))
-    else none
-  | .forS w i c p b =>
-    if k == .var then
+/-- merging into `s2` of the declaration `left` (kind `k`, items / reference `litems`) that precedes it -/
+def mergeDeclLeftS (k : DeclKind) (litems : List DE) (s2 : DS) : SM (Option (List DS)) :=
+  match refOf litems with
+  | none =>
+    -- let / const: only adjacent declarations of the same kind
+    (match s2 with
+     | .decl k2 items2 => if k == k2 && (refOf items2).isNone then pure (some [.decl k (litems ++ items2)]) else pure none
+     | _ => pure none)
+  | some dl =>
+    match s2 with
+    | .decl _ items2 =>
+      (match refOf items2 with
+       | some dr => do
+         let l ← getVD dl
+         let r ← getVD dr
+         setItems dr (l.items ++ r.items)
+         modify (fun st => st.modify dl (fun v => { v with live := false }))
+         pure (some [s2])
+       | none => pure none)
+    | .expr v => do
+      let rest ← mergeDeclExprS dl v false
+      match rest with
+      | none => pure (some [.decl k litems])
+      | some r => pure (some [.decl k litems, .expr r])
+    | .forS w i c p b =>
       (match i with
-       | .empty => some (some [.forS w (.decl .var items) c p b])
-       | .decl k2 items2 =>
-         if k2 == .hoisted && !hasDefines items2 then some (some [.forS w (.decl .var items) c p b])
-         else if k2 == .var || k2 == .hoisted then
-           some ((mergeVarDecls risk .var items items2 false).map (fun d => [.forS w (.decl .var d) c p b]))
-         else none
-       | _ => none)
-    else none
-  | _ => none
+       | .decl _ items2 =>
+         (match refOf items2 with
+          | some d2 => do
+            let v2 ← getVD d2
+            if v2.kind == .hoisted && !hasDefines v2.items then pure (some [.forS w (.decl k litems) c p b])
+            else do
+              mergeDeclsS dl d2 false
+              modify (fun st => st.modify d2 (fun v => { v with kind := .var }))
+              pure (some [.forS w (.decl k litems) c p b])
+          | none => pure none)
+       | _ => pure none)
+    | _ => pure none
 
 /-- one round of the `MergeIfReturnThrow` label -/
 def mergeIfStep (prev cur : DS) : Option (DS × Bool) :=
@@ -508,20 +786,18 @@ def elseRemoval (s0 : DS) (rest0 : List DS) : DS × List DS :=
     else (s0, rest0)
   | _ => (s0, rest0)
 
-/-- the merges of the `if 0 < i` block of `optimizeStmtList`: `none` = outside the model -/
-def mergeAcc (risk : List String) (acc : List DS) (s2 : DS) : Option (List DS) :=
+/-- the merges of the `if 0 < i` block of `optimizeStmtList` -/
+def mergeAccS (acc : List DS) (s2 : DS) : SM (List DS) :=
   match splitLast acc with
-  | some (init, .expr left) =>
-    (match mergeExprLeft risk left s2 with
-     | none => some (acc ++ [s2])
-     | some none => none
-     | some (some l) => some (init ++ l))
-  | some (init, .decl k items) =>
-    (match mergeDeclLeft risk k items s2 with
-     | none => some (acc ++ [s2])
-     | some none => none
-     | some (some l) => some (init ++ l))
-  | _ => some (acc ++ [s2])
+  | some (init, .expr left) => do
+    match ← mergeExprLeftS left s2 with
+    | none => pure (acc ++ [s2])
+    | some l => pure (init ++ l)
+  | some (init, .decl k items) => do
+    match ← mergeDeclLeftS k items s2 with
+    | none => pure (acc ++ [s2])
+    | some l => pure (init ++ l)
+  | _ => pure (acc ++ [s2])
 
 def optIfCore (c : DE) (t e : DS) : DS :=
   let hasIf := !isEmptyStmt t
@@ -561,45 +837,67 @@ def isLexDecl : DS → Bool
   | .decl .const_ _ => true
   | _ => false
 
+/-- what the `IfStmt` node itself looks like after `optimizeStmt` (the Go code mutates the node and returns a possibly
+    different statement; `endsInIf` throws the returned one away) -/
+def optIfNode (c : DE) (t1 e1 : DS) : DS :=
+  let sw : DE × DS × DS := match c with
+    | .not x => if !isEmptyStmt e1 then (x, e1, t1) else (c, t1, e1)
+    | _ => (c, t1, e1)
+  let c' := sw.1
+  let t := sw.2.1
+  let e := sw.2.2
+  if !isEmptyStmt t && isEmptyStmt e then
+    match t with
+    | .ifS c2 t2 e2 =>
+      if isEmptyStmt e2 then .ifS (.bin .land (groupExpr c' BOp.land.left) (groupExpr c2 BOp.land.right)) t2 e
+      else .ifS c' t e
+    | _ => .ifS c' t e
+  else .ifS c' t e
+
 mutual
-/-- `optimizeStmt`; `none` = outside the model (a block that only holds a let / const declaration) -/
-def optStmt (risk : List String) : Nat → DS → Option DS
-  | 0, _ => none
+/-- `optimizeStmt`; failure = outside the model (a block that only holds a let / const declaration) -/
+def optStmt : Nat → DS → SM DS
+  | 0, _ => failure
   | fuel + 1, s =>
     match s with
-    | .ifS c t0 e0 =>
-      (match optStmt risk fuel t0, optStmt risk fuel e0 with
-       | some t1, some e1 => some (optIf c t1 e1)
-       | _, _ => none)
-    | .decl .hoisted items => some (if hasDefines items then .expr (.hdecl items) else .empty)
-    | .block l =>
-      (match optList risk fuel l .default with
-       | none => none
-       | some [] => some .empty
-       | some [s1] => if isLexDecl s1 then none else optStmt risk fuel s1
-       | some l' => some (.block l'))
-    | s => some s
+    | .ifS c t0 e0 => do
+      let t1 ← optStmt fuel t0
+      let e1 ← optStmt fuel e0
+      pure (optIf c t1 e1)
+    | .decl k items =>
+      (match refOf items with
+       | some d => do
+         let v ← getVD d
+         if v.kind == .hoisted then
+           pure (if hasDefines v.items then .expr (hdeclRef d) else .empty)
+         else pure s
+       | none => pure (.decl k items))
+    | .block l => do
+      let l' ← optList fuel l .default
+      match l' with
+      | [] => pure .empty
+      | [s1] => if isLexDecl s1 then failure else optStmt fuel s1
+      | _ => pure (.block l')
+    | s => pure s
 
-def optLoop (risk : List String) : Nat → List DS → List DS → Option (List DS)
-  | 0, _, _ => none
+def optLoop : Nat → List DS → List DS → SM (List DS)
+  | 0, _, _ => failure
   | fuel + 1, acc, pending =>
     match pending with
-    | [] => some acc
-    | s0 :: rest0 =>
+    | [] => pure acc
+    | s0 :: rest0 => do
       let r := elseRemoval s0 rest0
-      match optStmt risk fuel r.1 with
-      | none => none
-      | some s2 =>
-        if isEmptyNode s2 then optLoop risk fuel acc (r.2.dropWhile isEmptyNode)
-        else
-          match mergeAcc risk acc s2 with
-          | none => none
-          | some acc1 => optLoop risk fuel (mergeIfRet (acc1.length + 1) acc1) r.2
+      let s2 ← optStmt fuel r.1
+      if isEmptyNode s2 then optLoop fuel acc (r.2.dropWhile isEmptyNode)
+      else do
+        let acc1 ← mergeAccS acc s2
+        optLoop fuel (mergeIfRet (acc1.length + 1) acc1) r.2
 
-def optList (risk : List String) : Nat → List DS → BlockType → Option (List DS)
-  | 0, _, _ => none
-  | fuel + 1, l, bt =>
-    (optLoop risk fuel [] l).map (fun acc => if bt == .function then trimReturn acc else acc)
+def optList : Nat → List DS → BlockType → SM (List DS)
+  | 0, _, _ => failure
+  | fuel + 1, l, bt => do
+    let acc ← optLoop fuel [] l
+    pure (if bt == .function then trimReturn acc else acc)
 end
 
 mutual
@@ -648,8 +946,7 @@ def identStart : List Char := "etnsoiarclduhmfpgvbjy_wOxCEkASMFTzDNLRPHIBV$WUKqY
 
 def identOrder (c : Char) : Nat := if identStart.contains c then identStart.idxOf c else 0
 
-/-- the comparison function of the `sort.SliceStable` in `minifyVarDecl` (`j` is never the first element when the
-    binding is not a plain variable; plain variables only) -/
+/-- the comparison function of the `sort.SliceStable` in `minifyVarDecl` (plain variables only) -/
 def declLess (a b : DE) : Bool :=
   match a, b with
   | .var x _, .var y _ =>
@@ -717,7 +1014,7 @@ end
 /-- `minifyParams(params, removeUnused = true)`; `none`: a trailing parameter that is only redeclared (`Uses` is not
     modelled) -/
 def keptParams (ps : List (String × Ann)) (body : List DS) : Option (List String) :=
-  let used := fun (p : String × Ann) => decide (0 < occSL p.2.rid body)
+  let used := fun (p : String × Ann) => decide (0 < occSL p.2.rid body)   -- `body` is the parsed body (no references)
   let kept := (ps.reverse.dropWhile (fun p => !used p)).reverse
   let dropped := ps.drop kept.length
   if dropped.any (fun p => (varNamesL body).contains p.1) then none else some (kept.map (·.1))
@@ -727,171 +1024,204 @@ def sepToks (sep : Tok) : List (List Tok) → List Tok
   | [x] => x
   | x :: y :: t => x ++ sep :: sepToks sep (y :: t)
 
+mutual
+/-- replace the references to hoisted declarations inside an expression by their items -/
+def resolveE (st : Store) : DE → DE
+  | .assign x a e => .assign x a (resolveE st e)
+  | .call f a => .call (resolveE st f) (resolveEL st a)
+  | .bin op a b => .bin op (resolveE st a) (resolveE st b)
+  | .not e => .not (resolveE st e)
+  | .typeof e => .typeof (resolveE st e)
+  | .cond c a b => .cond (resolveE st c) (resolveE st a) (resolveE st b)
+  | .comma l => .comma (resolveEL st l)
+  | .group e => .group (resolveE st e)
+  | .hdecl items =>
+    (match refOf items with
+     | some d => (match st[d]? with | some v => .hdecl v.items | none => .hdecl items)
+     | none => .hdecl items)
+  | e => e
+def resolveEL (st : Store) : List DE → List DE
+  | [] => []
+  | a :: t => resolveE st a :: resolveEL st t
+end
+
 /-- expression printing: the C01 model of `minifyExpr` -/
-def printE (e : DE) (p : Prec) : Option (List Tok) :=
-  (JsPrint.minGen (JsPrint.optNode false true) (8 * JsPrint.size (toE e) + 64) (toE e) p).map JsPrint.flat
+def printE (e0 : DE) (p : Prec) : SM (List Tok) := do
+  let st ← get
+  let e := resolveE st e0
+  match (JsPrint.minGen (JsPrint.optNode false true) (8 * JsPrint.size (toE e) + 64) (toE e) p).map JsPrint.flat with
+  | some t => pure t
+  | none => failure
 
 /-- `minifyBindingElement` of a declaration item -/
-def printItem : DE → Option (List Tok)
-  | .var x _ => some [.ident x]
-  | .assign x _ e => (printE e opAssign).map (fun t => [Tok.ident x, Tok.p "="] ++ t)
-  | _ => none
+def printItem : DE → SM (List Tok)
+  | .var x _ => pure [.ident x]
+  | .assign x _ e => do
+    let t ← printE e opAssign
+    pure ([Tok.ident x, Tok.p "="] ++ t)
+  | _ => failure
 
-def printItems (l : List DE) : Option (List Tok) := (JsPrint.mapO printItem l).map (sepToks (.p ","))
+def printItems : List DE → SM (List (List Tok))
+  | [] => pure []
+  | a :: t => do
+    let x ← printItem a
+    let r ← printItems t
+    pure (x :: r)
 
 def kindWord : DeclKind → String
   | .var => "var" | .let_ => "let" | .const_ => "const" | .hoisted => ""
 
 /-- `minifyVarDecl(decl, onlyDefines)`; empty list: nothing is written -/
-def printDecl (k : DeclKind) (items : List DE) : Option (List Tok) :=
-  if items.isEmpty then some [] else
-  if k == .hoisted then printItems (defines items) else
-  if 20 < items.length then none else
-  (printItems (if k == .var then sortDecl items else items)).map (fun t => Tok.kw (kindWord k) :: t)
+def printDecl (k0 : DeclKind) (items0 : List DE) : SM (List Tok) := do
+  let (k, items) ← (match refOf items0 with
+    | some d => do let v ← getVD d; pure (v.kind, v.items)
+    | none => pure (k0, items0) : SM (DeclKind × List DE))
+  if items.isEmpty then pure [] else
+  if k == .hoisted then do
+    let ts ← printItems (defines items)
+    pure (sepToks (.p ",") ts)
+  else if 20 < items.length then failure
+  else do
+    let ts ← printItems (if k == .var then sortDecl items else items)
+    pure (Tok.kw (kindWord k) :: sepToks (.p ",") ts)
 
-/-- the risk set (see `addDefinition`) of a function body after `hoistVars` -/
-def bareOf (items : List DE) : List String :=
-  items.filterMap (fun i => match i with | .var x _ => some x | _ => none)
-
-mutual
-def varDeclsS : DS → List (List DE)
-  | .decl .var items => [items]
-  | .ifS _ t e => varDeclsS t ++ varDeclsS e
-  | .block l => varDeclsL l
-  | .forS _ i _ _ b =>
-    (match i with
-     | .decl .var items => [items]
-     | .decl .hoisted items => [items]
-     | _ => []) ++ varDeclsL b
-  | .tryS b _ _ cb => varDeclsL b ++ varDeclsL cb
-  | _ => []
-def varDeclsL : List DS → List (List DE)
-  | [] => []
-  | s :: t => varDeclsS s ++ varDeclsL t
-end
-
-def riskOf (body : List DS) : List String :=
-  let ds := varDeclsL body
-  if ds.length ≤ 1 then [] else (ds.map bareOf).flatten
+/-- the body of a nested function (or the program) as references with its own store -/
+def enterBody (body : List DS) : List DS × Store :=
+  ((refL body 0).1, hoistStore (collectL [] body))
 
 mutual
-/-- `endsInIf` (re-runs `optimizeStmt` on an `if` without else) -/
-def endsInIf (risk : List String) : Nat → DS → Bool
-  | 0, _ => false
+/-- `endsInIf`: re-runs `optimizeStmt` on an `if` without else, which mutates that node; the statement as it is
+    afterwards is returned too -/
+def endsInIf : Nat → DS → SM (Bool × DS)
+  | 0, s => pure (false, s)
   | fuel + 1, s =>
     match s with
     | .ifS c t e =>
-      if isEmptyStmt e then
-        (match optStmt risk (4 * sizeS s + 16) (.ifS c t e) with | some (.ifS _ _ _) => true | _ => false)
-      else endsInIf risk fuel e
-    | .block l => (match l.getLast? with | some s1 => endsInIf risk fuel s1 | none => false)
-    | .forS _ _ _ _ b => (match b.getLast? with | some s1 => endsInIf risk fuel s1 | none => false)
-    | _ => false
+      if isEmptyStmt e then do
+        let f := 4 * sizeS s + 16
+        let t1 ← optStmt f t
+        let e1 ← optStmt f e
+        let r := optIf c t1 e1
+        pure ((match r with | .ifS _ _ _ => true | _ => false), optIfNode c t1 e1)
+      else do
+        let r ← endsInIf fuel e
+        pure (r.1, .ifS c t r.2)
+    | .block l =>
+      (match splitLast l with
+       | some (init, s1) => do let r ← endsInIf fuel s1; pure (r.1, .block (init ++ [r.2]))
+       | none => pure (false, s))
+    | .forS w i c p b =>
+      (match splitLast b with
+       | some (init, s1) => do let r ← endsInIf fuel s1; pure (r.1, .forS w i c p (init ++ [r.2]))
+       | none => pure (false, s))
+    | _ => pure (false, s)
 end
 
 mutual
 /-- `minifyStmt`: tokens written and the value of `needsSemicolon` afterwards -/
-def printS (risk : List String) : Nat → DS → Option (List Tok × Bool)
-  | 0, _ => none
+def printS (orig : List DS) : Nat → DS → SM (List Tok × Bool)
+  | 0, _ => failure
   | fuel + 1, s =>
     match s with
-    | .expr e => (printE e opExpr).map (fun t => (t, true))
-    | .decl k items => if k == .hoisted then none else (printDecl k items).map (fun t => (t, true))
-    | .ret none => some ([.kw "return"], true)
-    | .ret (some e) => (printE e opExpr).map (fun t => ([Tok.kw "return"] ++ t, true))
-    | .throw e => (printE e opExpr).map (fun t => ([Tok.kw "throw"] ++ t, true))
-    | .block l => (printL risk fuel l false).map (fun t => ([Tok.p "{"] ++ t ++ [Tok.p "}"], false))
-    | .empty => some ([], false)
-    | .absent => some ([], false)
+    | .expr e => do let t ← printE e opExpr; pure (t, true)
+    | .decl k items => do let t ← printDecl k items; pure (t, true)
+    | .ret none => pure ([.kw "return"], true)
+    | .ret (some e) => do let t ← printE e opExpr; pure ([Tok.kw "return"] ++ t, true)
+    | .throw e => do let t ← printE e opExpr; pure ([Tok.kw "throw"] ++ t, true)
+    | .block l => do let t ← printL orig fuel l false; pure ([Tok.p "{"] ++ t ++ [Tok.p "}"], false)
+    | .empty => pure ([], false)
+    | .absent => pure ([], false)
     | .fn name _ ps body =>
-      let hb := hoistBody body
-      let risk' := riskOf hb
-      (match optList risk' (4 * sizeSL hb + 16) hb .function, keptParams ps body with
-       | some body', some ps' =>
-         (printL risk' fuel body' false).map (fun t =>
-           ([Tok.kw "function", Tok.ident name, Tok.p "("] ++ sepToks (Tok.p ",") (ps'.map (fun p => [Tok.ident p]))
-             ++ [Tok.p ")", Tok.p "{"] ++ t ++ [Tok.p "}"], false))
-       | _, _ => none)
-    | .tryS b x a cb =>
-      (match optList risk (4 * sizeSL b + 16) b .default, optList risk (4 * sizeSL cb + 16) cb .default with
-       | some b', some cb' =>
-         (match printL risk fuel b' false, printL risk fuel cb' false with
-          | some tb, some tc =>
-            let bind := if 0 < occSL a.rid cb then [Tok.p "(", Tok.ident x, Tok.p ")"] else []
-            some ([Tok.kw "try", Tok.p "{"] ++ tb ++ [Tok.p "}", Tok.kw "catch"] ++ bind ++ [Tok.p "{"] ++ tc
-              ++ [Tok.p "}"], false)
-          | _, _ => none)
-       | _, _ => none)
-    | .forS _ i c p b =>
-      (match optList risk (4 * sizeSL b + 16) b .iteration with
-       | none => none
-       | some b' =>
-         let ti : Option (List Tok) := match i with
-           | .empty => some []
-           | .expr e => printE e opLHS
-           | .decl k items => printDecl k items
-           | _ => none
-         let tc : Option (List Tok) := match c with | none => some [] | some e => printE e opExpr
-         let tp : Option (List Tok) := match p with | none => some [] | some e => printE e opExpr
-         let hasLex := b'.any isLexDecl || (match b' with | [.fn _ _ _ _] => true | _ => false)
-         let tb : Option (List Tok × Bool) :=
-           if 1 < b'.length || hasLex then (printL risk fuel b' false).map (fun t => ([Tok.p "{"] ++ t ++ [Tok.p "}"], false))
-           else match b' with
-             | [s1] => printS risk fuel s1
-             | _ => some ([Tok.p ";"], false)
-         match ti, tc, tp, tb with
-         | some ti, some tc, some tp, some tb =>
-           some ([Tok.kw "for", Tok.p "("] ++ ti ++ [Tok.p ";"] ++ tc ++ [Tok.p ";"] ++ tp ++ [Tok.p ")"] ++ tb.1, tb.2)
-         | _, _, _, _ => none)
+      let eb := enterBody body
+      let sub : SM (List Tok) := do
+        let body' ← optList (4 * sizeSL body + 16) eb.1 .function
+        printL orig fuel body' false
+      (match sub.run eb.2, keptParams ps body with
+       | some (t, _), some ps' =>
+         pure ([Tok.kw "function", Tok.ident name, Tok.p "("] ++ sepToks (Tok.p ",") (ps'.map (fun p => [Tok.ident p]))
+           ++ [Tok.p ")", Tok.p "{"] ++ t ++ [Tok.p "}"], false)
+       | _, _ => failure)
+    | .tryS b x a cb => do
+      let b' ← optList (4 * sizeSL b + 16) b .default
+      let tb ← printL orig fuel b' false
+      let cb' ← optList (4 * sizeSL cb + 16) cb .default
+      let tc ← printL orig fuel cb' false
+      let bind := if 0 < occSL a.rid orig then [Tok.p "(", Tok.ident x, Tok.p ")"] else []
+      pure ([Tok.kw "try", Tok.p "{"] ++ tb ++ [Tok.p "}", Tok.kw "catch"] ++ bind ++ [Tok.p "{"] ++ tc ++ [Tok.p "}"], false)
+    | .forS _ i c p b => do
+      let b' ← optList (4 * sizeSL b + 16) b .iteration
+      let ti ← (match i with
+        | .empty => pure []
+        | .expr e => printE e opLHS
+        | .decl k items => printDecl k items
+        | _ => failure : SM (List Tok))
+      let tc ← (match c with | none => pure [] | some e => printE e opExpr : SM (List Tok))
+      let tp ← (match p with | none => pure [] | some e => printE e opExpr : SM (List Tok))
+      let hasLex := b'.any isLexDecl || (match b' with | [.fn _ _ _ _] => true | _ => false)
+      let tb ← (if 1 < b'.length || hasLex then do
+            let t ← printL orig fuel b' false
+            pure ([Tok.p "{"] ++ t ++ [Tok.p "}"], false)
+          else match b' with
+            | [s1] => printS orig fuel s1
+            | _ => pure ([Tok.p ";"], false) : SM (List Tok × Bool))
+      pure ([Tok.kw "for", Tok.p "("] ++ ti ++ [Tok.p ";"] ++ tc ++ [Tok.p ";"] ++ tp ++ [Tok.p ")"] ++ tb.1, tb.2)
     | .ifS c t e =>
       let hasIf := !isEmptyStmt t
       let hasElse := !isEmptyStmt e
-      if !hasIf && !hasElse then some ([], false)
-      else
-        match printE c opExpr with
-        | none => none
-        | some ct =>
-          let head := [Tok.kw "if", Tok.p "("] ++ ct ++ [Tok.p ")"]
-          let body : Option (List Tok × Bool) :=
-            if !hasIf then some ([], true)
-            else if hasElse && endsInIf risk (sizeS t + 1) t then
-              (printS risk fuel t).map (fun r => ([Tok.p "{"] ++ r.1 ++ [Tok.p "}"], false))
-            else printS risk fuel t
-          match body with
-          | none => none
-          | some (bt, pend1) =>
-            if hasElse then
-              match printS risk fuel e with
-              | none => none
-              | some (et, pend2) =>
-                some (head ++ bt ++ (if pend1 then [Tok.p ";"] else []) ++ [Tok.kw "else"] ++ et, pend2)
-            else some (head ++ bt, pend1)
+      if !hasIf && !hasElse then pure ([], false)
+      else do
+        let ct ← printE c opExpr
+        let head := [Tok.kw "if", Tok.p "("] ++ ct ++ [Tok.p ")"]
+        let body ← (if !hasIf then pure ([], true)
+          else do
+            let ends ← (if hasElse then endsInIf (sizeS t + 1) t else pure (false, t))
+            if ends.1 then do
+              let r ← printS orig fuel ends.2
+              pure ([Tok.p "{"] ++ r.1 ++ [Tok.p "}"], false)
+            else printS orig fuel ends.2 : SM (List Tok × Bool))
+        if hasElse then do
+          let r ← printS orig fuel e
+          pure (head ++ body.1 ++ (if body.2 then [Tok.p ";"] else []) ++ [Tok.kw "else"] ++ r.1, r.2)
+        else pure (head ++ body.1, body.2)
 
-def printL (risk : List String) : Nat → List DS → Bool → Option (List Tok)
-  | _, [], _ => some []
-  | 0, _ :: _, _ => none
-  | fuel + 1, s :: rest, pending =>
-    match printS risk fuel s with
-    | none => none
-    | some (ts, pend) =>
-      match printL risk fuel rest pend with
-      | none => none
-      | some r => some ((if pending && !ts.isEmpty then [Tok.p ";"] else []) ++ ts ++ r)
+def printL (orig : List DS) : Nat → List DS → Bool → SM (List Tok)
+  | _, [], _ => pure []
+  | 0, _ :: _, _ => failure
+  | fuel + 1, s :: rest, pending => do
+    let r ← printS orig fuel s
+    let t ← printL orig fuel rest r.2
+    pure ((if pending then [Tok.p ";"] else []) ++ r.1 ++ t)
 end
-
-/-- the program after `hoistVars` and `optimizeStmtList` (top level only; nested function bodies are transformed when
-    they are printed) -/
-def transformTop (prog : List DS) : Option (List DS) :=
-  let hb := hoistBody prog
-  optList (riskOf hb) (4 * sizeSL hb + 16) hb .function
 
 /-- the tokens `(*js.Minifier{KeepVarNames: true}).Minify` writes for a program of the fragment -/
 def jsTokens (prog : List DS) : Option (List Tok) :=
-  let hb := hoistBody prog
-  match optList (riskOf hb) (4 * sizeSL hb + 16) hb .function with
-  | none => none
-  | some l => printL (riskOf hb) (4 * sizeSL l + 16) l false
+  let eb := enterBody prog
+  let sub : SM (List Tok) := do
+    let l ← optList (4 * sizeSL prog + 16) eb.1 .function
+    printL prog (4 * sizeSL prog + 64) l false
+  (sub.run eb.2).map (·.1)
 
 def jsMinify (prog : List DS) : Option (List Char) := (jsTokens prog).map JsPrint.emit
+
+/-- consistency of the two presentations of `hoistVars`: the store and the references read back give `hoistBody` -/
+def hoistConsistent (body : List DS) : Bool :=
+  let eb := enterBody body
+  toString (repr (readL eb.2 eb.1)) == toString (repr (hoistBody body))
+
+mutual
+def hoistConsistentS : DS → Bool
+  | .ifS _ t e => hoistConsistentS t && hoistConsistentS e
+  | .block l => hoistConsistentL l
+  | .forS _ _ _ _ b => hoistConsistentL b
+  | .tryS b _ _ cb => hoistConsistentL b && hoistConsistentL cb
+  | .fn _ _ _ body => hoistConsistent body && hoistConsistentL body
+  | _ => true
+def hoistConsistentL : List DS → Bool
+  | [] => true
+  | s :: t => hoistConsistentS s && hoistConsistentL t
+end
+
+/-- checked by the driver on every program it prints (not proved) -/
+def hoistConsistentAll (prog : List DS) : Bool := hoistConsistent prog && hoistConsistentL prog
 
 end Verif.Model.JsHoist
